@@ -131,7 +131,19 @@ class Gen:
         self.w = World(self.cfg, prop, None)  # dry: model only
         self.alpha = self.draw_alphabet()
         self.cfg["triggers"] = bool(self.triggers)
-        self.nums = list(NUMBERS[self.rng.choice(prof["numbers"])])
+        numname = self.rng.choice(prof["numbers"])
+        if numname == "fuzz":
+            import struct
+            vals = []
+            while len(vals) < 14:
+                bits = self.rng.getrandbits(64)
+                x = struct.unpack("<d", struct.pack("<Q", bits))[0]
+                if x == x:  # no NaN: a point holding NaN is not equal to itself
+                    vals.append(x)
+            vals += [self.rng.randint(-2 ** 70, 2 ** 70) for _ in range(4)]
+            vals += [self.rng.randint(-10, 10) for _ in range(3)]
+            NUMBERS["fuzz"] = vals
+        self.nums = list(NUMBERS[numname])
         self.time_profile = prof["time_profile"] or self.rng.choice(
             ["inorder", "jitter", "ties", "random", "adjacent"])
         self.qdepth = prof["qdepth"]
@@ -169,9 +181,48 @@ class Gen:
     def effective_encoding(self):
         return self.cfg["encoding"] or self.cfg["locale"]
 
+    def fuzz_string(self, enc):
+        """A random string over an interesting pool of code points."""
+        r = self.rng
+        pool = [",", '"', "'", "\n", "\r", "\t", "\0", " ", ";", "|", "\\",
+                "_", "t", "f", "a", "1", "-", ".", "e", "=", "\x1f", "\x7f",
+                "\x85", "\xa0", "\u2028", "\u2029", "\ufeff", "\u200b",
+                "\u0301", "\u00e9", "\u00df", "\u0130", "\u01c5", "\u4e2d",
+                "\U0001f600", "\U00010000", "\ud7ff", "\ue000", "\ufffd"]
+        n = r.choice([0, 1, 1, 2, 3, 5, 9])
+        out = []
+        for _ in range(n):
+            if r.random() < 0.75:
+                out.append(r.choice(pool))
+            else:
+                cp = r.choice([r.randint(1, 0x7f), r.randint(0x80, 0x7ff),
+                               r.randint(0x800, 0xd7ff),
+                               r.randint(0xe000, 0xffff),
+                               r.randint(0x10000, 0x10ffff)])
+                out.append(chr(cp))
+        s = "".join(out)
+        try:
+            s.encode(enc)
+        except UnicodeEncodeError:
+            s = s.encode(enc, errors="ignore").decode(enc)
+        return s
+
     def draw_alphabet(self):
         r = self.rng
         name = r.choice(self.prof["alphabets"])
+        if name == "fuzz":
+            enc0 = self.effective_encoding() if self.cfg["storage"] == \
+                "csv" else "utf-8"
+            ALPHABETS["fuzz"] = {
+                "m": [self.fuzz_string(enc0) or "m" for _ in range(4)],
+                "tk": [self.fuzz_string(enc0) for _ in range(5)],
+                "tv": [self.fuzz_string(enc0) for _ in range(8)],
+                "fk": [self.fuzz_string(enc0) for _ in range(5)],
+            }
+            for k in ("m", "tv"):
+                ALPHABETS["fuzz"][k] = [
+                    x for x in ALPHABETS["fuzz"][k]
+                    if x not in KNOWN_TRIGGERS.get(k, ())] or ["x"]
         enc = self.effective_encoding() if self.cfg["storage"] == "csv" \
             else "utf-8"
         # the temp file of a rewrite may be written in the locale encoding
